@@ -146,3 +146,44 @@ Fixpoint run {A} (p : prog A) (w : world) (o : oracle) : A * world * oracle * li
       let '(a, w', o'', tr) := run k w o in
       (a, w', o'', EvMark t pl :: tr)
   end.
+
+(** Execution up to a crash: the process dies just before its [n]-th significant
+    call (0-based).  Returns the world at that instant and the trace so far;
+    [true] if the crash point was reached. *)
+Fixpoint run_crash {A} (p : prog A) (w : world) (o : oracle) (n : nat) : world * oracle * list event * bool :=
+  match p with
+  | Ret a => (w, o, [], false)
+  | Call c k =>
+      if (significant c && Nat.eqb n (o_ncalls o))%bool then (w, o, [], true) else
+      let '(ord, orders') := take_order c o in
+      let '(f', r) := do_call w o c ord in
+      let o' := mkOracle (o_times o) (o_draws o) (o_shards o) (o_fresh o) orders' (o_fault o) (if significant c then S (o_ncalls o) else o_ncalls o) (o_gran o) (o_atime o) in
+      let '(w', o'', tr, b) := run_crash (k r) (mkWorld f' (w_counter w) (w_loads w)) o' n in
+      (w', o'', EvCall c r :: tr, b)
+  | Now k =>
+      let '(t, ts) := pop (kclock (w_fs w)) (o_times o) in
+      let o' := mkOracle ts (o_draws o) (o_shards o) (o_fresh o) (o_orders o) (o_fault o) (o_ncalls o) (o_gran o) (o_atime o) in
+      let '(w', o'', tr, b) := run_crash (k t) (mkWorld (tick (w_fs w) t) (w_counter w) (w_loads w)) o' n in
+      (w', o'', EvNow t :: tr, b)
+  | Trigger wt k =>
+      let '(fired, c', ds') := do_trigger w o wt in
+      let o' := mkOracle (o_times o) ds' (o_shards o) (o_fresh o) (o_orders o) (o_fault o) (o_ncalls o) (o_gran o) (o_atime o) in
+      let '(w', o'', tr, b) := run_crash (k fired) (mkWorld (w_fs w) c' (w_loads w)) o' n in
+      (w', o'', EvTrigger wt fired :: tr, b)
+  | RandShard m k =>
+      let '(x, xs) := pop 0%N (o_shards o) in
+      let x := if (m =? 0)%N then 0%N else (x mod m)%N in
+      let o' := mkOracle (o_times o) (o_draws o) xs (o_fresh o) (o_orders o) (o_fault o) (o_ncalls o) (o_gran o) (o_atime o) in
+      let '(w', o'', tr, b) := run_crash (k x) w o' n in
+      (w', o'', EvRandShard m x :: tr, b)
+  | LoadGet h i k => run_crash (k (load_get w h i)) w o n
+  | LoadSet h i v k => run_crash k (mkWorld (w_fs w) (w_counter w) (aset nn_eqb (h, i) v (w_loads w))) o n
+  | Fresh k =>
+      let '(s, ss) := pop "tmp"%string (o_fresh o) in
+      let o' := mkOracle (o_times o) (o_draws o) (o_shards o) ss (o_orders o) (o_fault o) (o_ncalls o) (o_gran o) (o_atime o) in
+      let '(w', o'', tr, b) := run_crash (k s) w o' n in
+      (w', o'', EvFresh s :: tr, b)
+  | Mark t pl k =>
+      let '(w', o'', tr, b) := run_crash k w o n in
+      (w', o'', EvMark t pl :: tr, b)
+  end.
